@@ -49,13 +49,24 @@ def job(spec):
             b = 0            # with location 'norm' nothing is subtracted: z-scores are equivariant under pure scalings only
         a = an / ad
         X1 = (a * X0.astype(np.float64) + b).astype(np.float32)
+        # memory layout is not part of the value of an array: a transposed view (what FilReader.read_block returns) or a strided
+        # window must give what the contiguous copy gives
+        lay = c.get("layout", "C")
+        if X0.ndim == 2 and lay == "T":
+            X0, X1 = np.ascontiguousarray(X0.T).T, np.ascontiguousarray(X1.T).T
+        elif X0.ndim == 2 and lay == "S":
+            def _strided(A):
+                buf = np.full((2 * A.shape[0], 3 * A.shape[1]), -777.0, dtype=np.float32)
+                buf[::2, 1::3] = A
+                return buf[::2, 1::3]
+            X0, X1 = _strided(X0), _strided(X1)
         axis = c["axis"]
         L0 = [[int(v) for v in ln] for ln in lanes_of(np.array(c["X"]), axis)]
         exact = c["exact"]
         mag = float(np.max(np.abs(X1)))
         tol = 2 if exact else 2 + int(math.ceil(64 * 2.0 ** -23 * mag * Q))
         base = {"lanes": L0, "an": an, "ad": ad, "b": b, "method": c["method"], "axis": -1 if axis is None else axis, "q": Q,
-                "tol": tol, "reldiv": 2000 if exact else 150, "cls": c["cls"], "exactmap": exact}
+                "tol": tol, "reldiv": 2000 if exact else 150, "cls": c["cls"], "exactmap": exact, "layout": lay}
         if c["kind"] == "scale":
             e = dict(base, a="scale", s0=[], s1=[], l1=[], finite=True, shape_ok=True, valcheck=bool(max(len(x) for x in L0) <= 16))
             try:
@@ -135,17 +146,18 @@ def run(v) -> None:
         cls = rng.choice(["ties", "ties", "const", "zeromad", "outlier", "small"])
         X = data(cls, shape)
         axes = [None] if len(shape) == 1 else [None, 0, 1]
+        layout = rng.choice(["C", "T", "S"]) if len(shape) == 2 else "C"
         for axis in axes:
             for m in METHODS:
                 # diffcov is a square root of a DIFFERENCE of sums: ill-conditioned when the lag covariance nearly cancels,
                 # so input rounding of a non-exact map is amplified without bound -> exact maps only for it
                 ex = rng.random() < 0.7 or m == "diffcov"
                 mp = rng.choice(EXACT if ex else GENERAL)
-                cases.append({"kind": "scale", "X": X, "axis": axis, "method": m, "map": mp, "exact": ex, "cls": cls})
+                cases.append({"kind": "scale", "X": X, "axis": axis, "method": m, "map": mp, "exact": ex, "cls": cls, "layout": layout})
             for m in rng.sample(ZMETHODS, 4):
                 ex = rng.random() < 0.7 or m == "diffcov"
                 cases.append({"kind": "z", "X": X, "axis": axis if axis is not None else None, "method": m,
-                              "loc": rng.choice(["median", "mean", "norm"]), "map": rng.choice(EXACT if ex else GENERAL), "exact": ex, "cls": cls})
+                              "loc": rng.choice(["median", "mean", "norm"]), "map": rng.choice(EXACT if ex else GENERAL), "exact": ex, "cls": cls, "layout": layout})
     specs = [{"id": i, "cases": cases[i::14]} for i in range(14)]
     evs = [e for r in pool.pmap(job, specs, workers=14) for e in r]
     sk = ("a", "lanes", "an", "ad", "b", "method", "q", "tol", "reldiv", "s0", "s1", "l1", "finite", "shape_ok", "valcheck", "outcome")
@@ -157,7 +169,7 @@ def run(v) -> None:
         v.nontrivial.add(json.dumps({k: e[k] for k in ("a", "lanes", "an", "ad", "b", "method", "axis")} | {"loc": e.get("loc", "")}))
     for tr, pos in tracecheck.validate("Trace_Robust", traces, verdict=v, label="robust estimator events", chunk=12, timeout=3000):
         e = tr["full"][abs(pos) - 1]
-        cfg = {"method": e["method"], "axis": e["axis"], "map": [e["an"], e["ad"], e["b"]], "cls": e["cls"], "exactmap": e["exactmap"],
+        cfg = {"method": e["method"], "axis": e["axis"], "map": [e["an"], e["ad"], e["b"]], "cls": e["cls"], "exactmap": e["exactmap"], "layout": e.get("layout", "C"),
                "nlanes": len(e["lanes"]), "lane0": e["lanes"][0], "loc": e.get("loc", ""), "lanes": e["lanes"]}
         if e["a"] == "scale":
             cfg["negative_a"] = e["an"] < 0
